@@ -1330,6 +1330,79 @@ def r12_append_presence(run):
         raise AnchorError('presence tests of append_header/append_link not found (%d)' % n)
 
 
+def r14_jar_only_grows(run):
+    """One Set-Cookie line per cookie written, an unset cookie EXPIRED (not
+    forgotten): an entry of the cookie jar, once written, stays until the
+    response is sent.  Decided over every method of the response classes:
+    no `del jar[...]`, no jar.pop()/popitem()/clear(), and the jar attribute
+    is rebound only to None (constructor) or to a fresh SimpleCookie where it
+    is None.  W: set_cookie('s', v) succeeds, a later rejected call for the
+    same name "rolls back" with del -> the first cookie's line is never sent."""
+    p = run.project
+    _require_stores(p)
+    jar = '_cookies'
+    n = 0
+    seen = set()
+    for cq in (RESPONSE, ASGI_RESPONSE):
+        for k in p.mro(cq):
+            c = p.classes.get(k)
+            if c is None:
+                continue
+            for f in c.methods.values():
+                if id(f) in seen:
+                    continue
+                seen.add(id(f))
+
+                def is_jar(e):
+                    return isinstance(e, ast.Attribute) and e.attr == jar and isinstance(e.value, ast.Name)
+
+                hits = [x for x in walk_self(f.node) if is_jar(x)]
+                if not hits:
+                    continue
+                run.use(f)
+                cfg = None
+                for x in walk_self(f.node):
+                    if isinstance(x, ast.Delete):
+                        for t in x.targets:
+                            if isinstance(t, ast.Subscript) and is_jar(t.value):
+                                n += 1
+                                run.fail('%s removes an entry of the cookie jar: a cookie written (or expired) earlier on this response is no longer sent'
+                                         % f.name, f, x, runtime_witness="resp.set_cookie('s', 'v'); a later set_cookie('s', ..., same_site='bogus') is "
+                                         "rejected -> no Set-Cookie line for 's' at all")
+                    elif isinstance(x, ast.Call) and isinstance(x.func, ast.Attribute) and is_jar(x.func.value) \
+                            and x.func.attr in ('pop', 'popitem', 'clear', '__delitem__'):
+                        n += 1
+                        run.fail('%s removes entries of the cookie jar (%s): cookies written earlier on this response are no longer sent'
+                                 % (f.name, x.func.attr), f, x)
+                    elif isinstance(x, (ast.Assign, ast.AnnAssign)) and getattr(x, 'value', None) is not None:
+                        tg = x.targets if isinstance(x, ast.Assign) else [x.target]
+                        if not any(is_jar(t) for t in tg):
+                            continue
+                        n += 1
+                        v = x.value
+                        if isinstance(v, ast.Constant) and v.value is None:
+                            run.check(f.name == '__init__', 'the cookie jar is reset to None only by the constructor', f, x)
+                            continue
+                        if cfg is None:
+                            cfg = cfg_of(f, p)
+                        nid = [nd.id for nd in cfg.live_nodes() if nd.ast is x]
+                        none_edges = []
+                        for t in cfg.live_nodes():
+                            if t.kind != 'test':
+                                continue
+                            for (y, l) in cfg.succ[t.id]:
+                                if l in ('T', 'F') and implied(t.ast, l == 'T', lambda e: isinstance(e, ast.Compare) and len(e.ops) == 1
+                                                               and isinstance(e.ops[0], ast.Is) and is_jar(e.left)
+                                                               and isinstance(e.comparators[0], ast.Constant) and e.comparators[0].value is None) is True:
+                                    none_edges.append((t.id, y, l))
+                        fresh = isinstance(v, ast.Call) and not v.args and not v.keywords
+                        ok = fresh and bool(nid) and any(flow.dominated_by_edge(cfg, nid[0], e) for e in none_edges)
+                        run.check(ok, '%s rebinds the cookie jar only to a fresh empty jar where it is None' % f.name, f, x,
+                                  runtime_witness='cookies written earlier on this response are dropped when the jar is replaced')
+                n += 0
+    run.ok('cookie jar: no entry is ever removed (%d methods mention the jar)' % len([1 for _ in seen]), 'falcon/response.py', 'jar removal sweep')
+
+
 def check(run):
     run.assume('receivers: `self` inside Response classes, parameters annotated Response, and the conventional name `resp` denote a response (A.6)')
     run.assume('http.cookies.Morsel semantics are library behaviour: keys are the RFC 6265 attribute names, OutputString() renders one cookie')
@@ -1337,9 +1410,13 @@ def check(run):
     run.rule('R1', r1_lower_keys, 'every key of a response header dict is lower-case', floor=25)
     run.rule('R2', r2_set_cookie_guard, 'Set-Cookie never enters/leaves through the plain header dict', floor=38)
     run.rule('R3', r3_emitters, 'three stores, two emitters', floor=20)
-    run.rule('R4', r4_cookie_attributes, 'cookie parameter -> attribute wiring and presence guards', floor=28)
+    run.rule('R4', r4_cookie_attributes, 'cookie parameter -> attribute wiring and presence guards', floor=26)
+    from . import c09 as _c09
+
+    run.rule('R13', _c09.localtime_sweep, 'cookie expiry and date headers are formatted as UTC, never through the process-local zone (shared with C09 R4)', floor=1)
     run.rule('R5', r5_uri_helpers, 'URI-bearing helpers are percent-encoded', floor=9)
     run.rule('R6', r6_property_factory, 'header property factory: one key, None deletes, transform applied', floor=16)
+    run.rule('R14', r14_jar_only_grows, 'the cookie jar only grows: no entry removed, jar rebound only from None to a fresh jar', floor=3)
     run.rule('R12', r12_append_presence, 'append decides presence by key, not by the truth of the value', floor=2)
     run.rule('R10', r10_ascii_fallback, 'the ASCII fallback of a download filename is ASCII', floor=2)
     run.rule('R9', r9_single_pass, 'set_headers consumes its iterable argument in a single pass', floor=1)
